@@ -292,7 +292,15 @@ def run(ctx):
             ctx.discrepancy(_known_key(ctx, t, val), "%s [%s]%s: %s (loaded=%s)" % (t[0], hist_s, " SIGKILL" if t[2] else "", pr, val.get("loaded")),
                             dict(task=[t[0], t[1], t[2]], observed=val), cls=cls)
     samples = [dict(format=t[0], sigkill=t[2], behaviour=t[1]) for t in tasks[:: max(1, len(tasks) // 3)][:3]]
-    cov = dict(traces_validated_against_impl=len(tasks), replays_failing=nfail, emitted_behaviours=emitted,
+    def _nontrivial(t):
+        ops = [x["op"] for x in t[1]["hist"]]
+        return ops.count("write") >= 2 or "crash" in ops or "reopen" in ops or any(x["op"] == "write" and not x["ok"] for x in t[1]["hist"])
+    distinct = len(set((t[0], t[2], json.dumps(t[1]["hist"], sort_keys=True)) for t in tasks if _nontrivial(t)))
+    cov = dict(evaluations=len(tasks), distinct_nontrivial=distinct,
+               rule="cases = (format, terminal behaviour of Writer.tla, kill mode), enumerated by TLC (all behaviours within the bounds; a stratified "
+                    "sample per format in the quick tier); non-trivial = at least two writes, or a refused (ragged) write, or a crash point, or a "
+                    "close+reopen-append; distinct = different (format, kill mode, operation history)",
+               traces_validated_against_impl=len(tasks), replays_failing=nfail, emitted_behaviours=emitted,
                crash_runs=sum(1 for t in tasks if t[1]["status"] == "crashed"), sigkill_runs=sum(1 for t in tasks if t[2]),
                formats=sorted(FORMATS), MaxFrames=mf, MaxWrite=mw, samples=samples,
                explanation="every terminal behaviour (ordered partition of the frames into writes x one ragged write of each kind x "
